@@ -125,6 +125,25 @@ def check(ctx):
            "vector[i] = lhs_value if contest i in lhs list, rhs_value if in rhs list, else fill (in contest order)" if okv
            else f"vector construction changed: {ir.show(rt, maxdepth=6)[:200]}")
 
+    # the validation has to happen on EVERY request that carries call lists, not only when the contest-level table is among the
+    # requested aggregates: a call site of _format_called_contests that is not under `_is_top_level_aggregate(..)` (or a validation in
+    # the client) is needed for "naming an unknown contest / a contest for both parties raises instead of producing estimates"
+    from ..effects import Guards as _Guards
+    G_ = _Guards(ctx)
+    sites_v = []
+    for g_ in repo.all_functions():
+        for c_ in util.own_nodes(g_, ast.Call):
+            if isinstance(c_.func, ast.Attribute) and c_.func.attr == "_format_called_contests" and g_.name != "_format_called_contests":
+                under_top = any(pol and isinstance(e, ast.Call) and isinstance(e.func, ast.Attribute) and e.func.attr == "_is_top_level_aggregate"
+                                for e, pol in G_.atoms(g_, c_))
+                sites_v.append((g_, c_, under_top))
+    ctx.sites("C07.R1.always", len(sites_v), 1, "call sites of _format_called_contests")
+    unconditional = [x for x in sites_v if not x[2]]
+    ctx.ob("C07.R1.always-validated", f"{cls.name}|call lists are validated on every request", bool(unconditional), fc.where(),
+           f"{len(unconditional)} validation site(s) run whatever aggregates are requested" if unconditional
+           else f"all {len(sites_v)} validations of the call / stop lists sit under `_is_top_level_aggregate(aggregate)`: a request that does not "
+                f"include the contest-level table (aggregates=['county_fips', 'unit'], ['unit'] ..) accepts a contest named for both parties or "
+                f"an unknown contest and returns estimates")
     # ---- terms of the two public functions (with _adjust_called_contests inlined) ---------------------
     b = ctx.builder(inline=lambda caller, call, callee: callee.name == "_adjust_called_contests")
     gp = ctx.fn(BM, "BootstrapElectionModel.get_aggregate_predictions")
